@@ -54,6 +54,15 @@ func TestVerifC07CacheNode(t *testing.T) {
 				opts = append(opts, WithExpiry(time.Hour))
 			case 2:
 				opts = append(opts, WithExpiry(2*time.Hour), WithNotFoundExpiry(time.Minute))
+			case 3:
+				// zero values: newOptions falls back to the defaults
+				opts = append(opts, WithExpiry(0), WithNotFoundExpiry(0))
+			case 4:
+				// negative values: the defaults again
+				opts = append(opts, WithExpiry(-time.Second), WithNotFoundExpiry(-time.Hour))
+			case 5:
+				// the pair in the other order, the first overridden by a repeated option
+				opts = append(opts, WithNotFoundExpiry(time.Minute), WithExpiry(time.Minute), WithExpiry(3*time.Hour))
 			}
 			nodes = append(nodes, NewNode(rds, barrier, st, errNotFound, opts...))
 		}
